@@ -32,6 +32,7 @@ def judge(ctx, exe, drivercmd, tracefile, want, tag):
                 elif c == want:
                     cands.setdefault((name, r), []).append((e, k))
     n = 0
+    unrepro = []
     for (name, r), evs in sorted(cands.items()):
         n += 1
         if n > 15:
@@ -56,11 +57,32 @@ def judge(ctx, exe, drivercmd, tracefile, want, tag):
                 continue
         if not hit:
             ctx.notes.append('unreproduced rejection %s of %s on %s' % (r, name, e['id']))
+            unrepro.append((name, r, e['id']))
             continue
         e2, k2 = hit
         what = '%s on %s (t=%s): %s; cfg=%s applies=%s body=%s observed=%s called=%s' % (
             name, e2['id'], e2['t'], r, e2['cfg'][k2 - 1], e2['applies'][k2 - 1], e2['body'][k2 - 1], e2['obs'][k2 - 1], e2['called'][k2 - 1])
         vlib.report(ctx, '%s:%s' % (name, r), what, dict(kind=drivercmd, id=e['id'], lint=name, reason=r, event=compact(e2)))
+    if unrepro and not ctx.violations:
+        # Rejections that do not reproduce on the object alone: the sweep lints distinct objects on all cores, so a verdict that
+        # depends on what else is being linted (shared state in the framework or a helper) shows only there.  Repeat the whole
+        # sweep once: if the same kind of rejection comes back, the real code did it twice - that is a violation, not a flake.
+        d3 = vlib.drive(ctx, exe, drivercmd, sub='confirm-%s-full' % tag)
+        rj3, lines3 = vlib.tlc_trace(ctx, 'Trace_Exec', os.path.join(d3, os.path.basename(tracefile)), header=3, shards=12)
+        again = {}
+        for (l3, p3) in rj3:
+            e3 = json.loads(lines3[l3 - 1])
+            for (k3, rs3) in p3[0]:
+                for r3 in rs3:
+                    if classify(r3) == want:
+                        again.setdefault(r3, []).append((metas[e3['kind']]['names'][e3['idx'][k3 - 1] - 1], e3['id']))
+        for r in sorted({u[1] for u in unrepro}):
+            if r in again:
+                first = [u for u in unrepro if u[1] == r][0]
+                vlib.report(ctx, 'schedule-dependent:%s' % r, 'rejections of kind "%s" appear whenever the corpus is linted on all cores (first run: %d classes, e.g. %s on %s; second run: %d events, e.g. %s on %s) '
+                            'but not when the object is linted alone: the verdict depends on what else is being linted' % (
+                                r, len([u for u in unrepro if u[1] == r]), first[0], first[2], len(again[r]), again[r][0][0], again[r][0][1]),
+                            dict(kind=drivercmd, reason=r, first=first, second=again[r][:5]))
     return len(rejects)
 
 
